@@ -165,10 +165,10 @@ def run_paths(prop, tier):
             "expressions: the layered grammar of MC_XPath.tla (families p1 p2 un fl cmp fn ctx ns kw ar ar3, thorough g1) plus seeded "
             "random expressions of depth <= 4; no variables, no id(); caller bindings: 4 prefix maps incl. swapped "
             "prefixes and unbound prefixes (error expected)",
-            "the namespace axis is exercised one element at a time (as predicate, through count/string/name...): node-sets "
-            "of namespace nodes across several elements are not compared, because inherited namespace nodes share one "
-            "identity/order key in xml_dom (`//namespace::*` collapses them - root cause in /repo/info, not catalogued "
-            "here); not exercised: default "
+            "the namespace axis: per element (as predicate, through count/string/name..., with further steps and parent) "
+            "and over whole documents (count(//namespace::*), unions of the namespace axes of two elements): inherited "
+            "namespace nodes share one identity/order key in xml_dom, which is the catalogued finding "
+            "namespace-nodes-shared with an exact as-is model in XPathSem.tla (NsShared); not exercised: default "
             "namespaces (xmlns=...: unprefixed attributes inherit it in xml_dom::AsExpandedName, a C10 matter outside "
             "/repo/xpath), DTD-defaulted attributes (all share id 0), position()/last() at the top level of a query",
             "numbers: exact dyadic values only (ScalarFns.tla); a value depending on an inexact result is not judged",
